@@ -82,6 +82,9 @@ def groups_for(r, tier):
         g.append((0, rng_list((0, 127), (960, 1087), (2000, 2111)) if q else rng_list((0, 3200)), sh, PLACES, "-", "-", "init update(len) finalize"))
         g.append((1, rng_list((0, 63), (480, 543), (961, 1087)) if q else rng_list((0, 1100)), shs, PLACES, rng_list(1, 511, 1023), "-",
                   "init update(xa) update(len) finalize: carry branches"))
+        if not q or r["fam"] in ("avx512", "api"):
+            # (once the sum is evaluated in 64 bits this case really hashes 4 GiB: quick runs it on the fastest family and the public entry only)
+            g.append((2, "4294967295", "0", "0" if q else PLACES, "1", "-", "uint32_t wrap of len + partial_block_len: update(xa = 1 byte) then update(len = 2^32-1 bytes of a read-only zero mapping)"))
     elif op == "MH_BLOCK":
         g.append((0, rng_list(0, 1024, 2048, 3072), rng_list((0, 63)), PLACES, "-", "-", "len/1024 blocks"))
     elif op == "MH_TAIL":
@@ -366,14 +369,15 @@ def gen():
         import memcpy_classes
     except ImportError:
         return {}
-    return {"Gen/MemcpyGen.v": memcpy_classes.generate(vlib.REPO)}
+    import mh_carry
+    return {"Gen/MemcpyGen.v": memcpy_classes.generate(vlib.REPO), "Gen/MhCarryGen.v": mh_carry.generate(vlib.REPO)}
 
 
 DRIVERS = []
 
 
 def run(tier, replay=None):
-    rep = vlib.Report(PID, "proof", tier, "cd coq && make Properties/C08.vo  (coqc 8.16.1, full .vo build) ; harness/guard_drv.c over the grid below")
+    rep = vlib.Report(PID, "partial: proof of the C-level index logic + exhaustive guard-page enumeration for the assembly", tier, "cd coq && make Properties/C08.vo  (coqc 8.16.1, full .vo build) ; harness/guard_drv.c over the grid below")
     # ---- Coq half
     ok, broken = True, None
     gen_err = None
@@ -418,11 +422,29 @@ def run(tier, replay=None):
     rep.notes["per_symbol"] = G.get("per_sym", {})
     for i, r in enumerate(P["typed"][:3]):
         rep.sample({"symbol": r["sym"], "op": r["op"], "family": r["fam"], "groups": [list(g[:6]) for g in groups_for(r, gtier)]})
-    if gen_err and not rep.violations:
-        rep.violation("memcpy_inline.h no longer has the shape the size-class translator recognises (%s); guard-page grid (%s tier, %d cases) found no out-of-range access" % (gen_err, gtier, G.get("total", 0)),
-                      {"theorem_or_file": "Gen/MemcpyGen.v (tr/memcpy_classes.py)", "error": gen_err, "guard_cases": G.get("total", 0)}, no_input=True)
-    elif not ok and not rep.violations:
-        rep.violation("Coq obligation no longer checks: %s; guard-page grid (%s tier, %d cases) found no out-of-range access" % (broken, gtier, G.get("total", 0)),
+    # a broken obligation / unrecognised source shape with no concrete failing input among the
+    # operations it is about -> the no-failing-input-found verdict (findings in unrelated
+    # operations do not hide it)
+    def related_found(what):
+        w = str(what)
+        ops = None
+        if "Memcpy" in w or "memcpy" in w or "FootprintCtx" in w or "FootprintPad" in w:
+            ops = ("HASH_CTX", "HASH_API")
+        elif "Mh" in w or "mh_" in w:
+            ops = ("MH", "MH_API", "MH_BLOCK", "MH_TAIL")
+        elif "Roll" in w:
+            ops = ("ROLL_API", "ROLL_UNTIL")
+        for _, rp_, no_input in rep.violations:
+            if no_input:
+                continue
+            if ops is None or rp_.get("op") in ops:
+                return True
+        return False
+    if gen_err and not related_found(gen_err):
+        rep.violation("a source file no longer has the shape its C08 translator recognises (%s); guard-page grid (%s tier, %d cases) found no out-of-range access in the operations concerned" % (gen_err, gtier, G.get("total", 0)),
+                      {"theorem_or_file": "Gen/MemcpyGen.v / Gen/MhCarryGen.v (tr/memcpy_classes.py, tr/mh_carry.py)", "error": gen_err, "guard_cases": G.get("total", 0)}, no_input=True)
+    elif not ok and gen_err is None and not related_found(broken):
+        rep.violation("Coq obligation no longer checks: %s; guard-page grid (%s tier, %d cases) found no out-of-range access in the operations concerned" % (broken, gtier, G.get("total", 0)),
                       {"theorem_or_file": broken, "guard_cases": G.get("total", 0)}, no_input=True)
     rep.assumptions = [
         "partial: the Coq theorems cover the C-level index logic of the models (rolling-hash indices, inline-copy size classes, context-layer buffer consumption, hash_pad, multi-hash carry); "
